@@ -342,6 +342,7 @@ def run(ctx):
     with runner.net:
         for case, reply in zip(cases, replies):
             run_case(ctx, runner, case, reply)
+        run_cookies(ctx, runner.net)
     ctx.sample({"case": cases[0]})
 
 
@@ -349,7 +350,328 @@ def replay(ctx, data):
     global PLAIN
     case = data.get("case", data)
     case = case.get("case", case)
+    if case.get("kind") == "cookies":
+        runner = CookieRunner()
+        with runner.net:
+            run_cookie_case(ctx, runner, case, ctx.model.ask1(cookie_model_line(case)))
+        return
     runner = Runner()
     PLAIN = F.plain_bytes()
     with runner.net:
         run_case(ctx, runner, case, ctx.model.ask1(model_line(case)))
+
+
+# ==============================================================================================
+# The cookie clauses against the REAL http.cookiejar (EXT-C14)
+#
+# impl  = the real OFXClient.post_request (urllib branch: build_opener(HTTPCookieProcessor(self.cookiejar)) iff
+#         persist_cookies) behind FakeNet, with http.cookiejar's clock replaced by FakeClock; the fake server answers with
+#         generated Set-Cookie headers (Domain / Path / Secure / Max-Age / Expires / HttpOnly / SameSite in every combination
+#         and order, repeated attributes, matching and non-matching domains and paths, dot-less hosts, IPv4 literals,
+#         http and https) over histories of posts by several client instances to several hosts
+# model = lean/OfxModel/Ofx/CookieJar.lean via the driver (`cookie.run`): the items of every Cookie header in wire order, and
+#         every jar at the end in iteration order with all cookie fields
+# oracle= the cookie clauses of C14 stated without reference to either: a cookie is sent only by the instance that received
+#         it, only to a host and path it belongs to, never over http when Secure, never when expired or deleted, most
+#         specific path first, nothing without persist_cookies; and a cookie certainly acceptable, still live and
+#         matching IS sent.
+# ==============================================================================================
+CK_RULE = ("histories of 1..10 posts by 1..3 client instances (persist_cookies on/off) to http/https URLs over 14 hosts "
+           "(names, sub-domains, look-alike suffixes, dot-less names, IPv4 literals, upper case) x 12 paths, each response "
+           "setting 0..3 cookies with generated attribute lists (Domain, Path, Secure, Max-Age, Expires, unknown; any order, "
+           "repeats) or failing, on a clock the check moves; a case is non-trivial when some Cookie header was sent")
+
+CK_HOSTS = ["bank.example", "www.bank.example", "ofx.www.bank.example", "notbank.example", "bank.example.evil.test",
+            "other.test", "BANK.Example", "example", "localhost", "intranet", "10.0.0.1", "110.0.0.1", "20.0.0.1", "a.b.local"]
+# (path as it stands in the URL, the same after escape_path)
+CK_PATHS = [("", "/"), ("/", "/"), ("/ofx", "/ofx"), ("/ofx/", "/ofx/"), ("/ofx/v1", "/ofx/v1"), ("/ofx/v1/req", "/ofx/v1/req"),
+            ("/ofxx", "/ofxx"), ("/other/x", "/other/x"), ("/a b/c", "/a%20b/c"), ("/%7euser/x", "/%7Euser/x"),
+            ("/q~x/y;p=1", "/q~x/y;p=1"), ("/caf\u00e9/x", "/caf%C3%A9/x")]
+# (Path attribute value, the same after escape_path); "" = attribute present but empty
+CK_PATH_ATTRS = [("/", "/"), ("/ofx", "/ofx"), ("/ofx/", "/ofx/"), ("/of", "/of"), ("", None), ("/ofx/v1", "/ofx/v1"),
+                 ("/other", "/other"), ("ofx", "ofx"), ("/a b", "/a%20b"), ("/%7euser", "/%7Euser"), ("/caf\u00e9", "/caf%C3%A9")]
+CK_T0 = 1_700_000_000
+
+
+def ck_domain_attrs(rng, host):
+    h = host.lower()
+    parts = h.split(".")
+    parent = ".".join(parts[1:]) if len(parts) > 1 else h
+    pool = [h, "." + h, parent, "." + parent, host.upper(), parts[-1], "." + parts[-1], "other.test", ".other.test",
+            "www." + h, ".local", "local", h + ".local", ".0.0.1", "bank.example", ".example", "k.example"]
+    return rng.choice(pool)
+
+
+def ck_attrs(rng, host, now):
+    """-> list of (kind, value) in header order"""
+    out = []
+    for _ in range(rng.choice((0, 0, 1, 1, 2, 2, 3, 4))):
+        k = rng.choice("ddppsmeeo")
+        if k == "d":
+            out.append(("d", ck_domain_attrs(rng, host)))
+        elif k == "p":
+            out.append(("p", rng.randrange(len(CK_PATH_ATTRS))))
+        elif k == "s":
+            out.append(("s", None))
+        elif k == "m":
+            out.append(("m", rng.choice((0, -1, 1, 5, 30, 100, 1000))))
+        elif k == "e":
+            out.append(("e", None if rng.random() < 0.15 else now + rng.choice((-100, -1, 0, 1, 5, 30, 100, 1000))))
+        else:
+            out.append(("o", rng.choice(("HttpOnly", "SameSite=Lax", "Priority=High"))))
+    return out
+
+
+def gen_cookie_history(rng):
+    nclients = rng.choice((1, 2, 2, 3))
+    clients = [rng.random() < 0.85 for _ in range(nclients)]
+    # a history lives in a small neighbourhood of hosts and paths so that cookies meet requests
+    hosts = rng.sample(CK_HOSTS, rng.choice((1, 2, 3)))
+    if rng.random() < 0.5:
+        hosts = [h for h in CK_HOSTS if "bank" in h.lower()][:rng.choice((2, 3, 5))] + hosts[:1]
+    paths = rng.sample(range(len(CK_PATHS)), rng.choice((1, 2, 3, 4)))
+    now = CK_T0
+    posts, val = [], 0
+    for _ in range(rng.randint(1, 10)):
+        now += rng.choice((0, 0, 1, 2, 5, 20, 60))
+        host = rng.choice(hosts)
+        t_resp = now + rng.choice((0, 0, 0, 1, 3))
+        scs = []
+        for _c in range(rng.choice((0, 1, 1, 1, 2, 3))):
+            val += 1
+            scs.append({"name": "n%d" % rng.randrange(3), "value": "v%d" % val, "attrs": ck_attrs(rng, host, t_resp),
+                        "case": rng.randrange(3)})
+        r = rng.random()
+        reply = None if r < 0.06 else {"t": t_resp, "status": 500 if r < 0.12 else 200, "set": scs}
+        posts.append({"who": rng.randrange(nclients), "https": rng.random() < 0.7, "host": host, "path": rng.choice(paths),
+                      "t": now, "reply": reply})
+        now = max(now, t_resp)
+    return {"kind": "cookies", "clients": clients, "posts": posts}
+
+
+def ck_header_text(sc):
+    """the Set-Cookie header the fake server sends"""
+    import email.utils
+    names = {"d": ("Domain", "domain", "DOMAIN"), "p": ("Path", "path", "PATH"), "s": ("Secure", "secure", "SECURE"),
+             "m": ("Max-Age", "max-age", "MAX-AGE"), "e": ("Expires", "expires", "EXPIRES")}
+    parts = ["%s=%s" % (sc["name"], sc["value"])]
+    for k, v in sc["attrs"]:
+        if k == "o":
+            parts.append(v)
+            continue
+        n = names[k][sc["case"]]
+        if k == "s":
+            parts.append(n)
+        elif k == "p":
+            parts.append("%s=%s" % (n, CK_PATH_ATTRS[v][0]))
+        elif k == "e":
+            parts.append("%s=%s" % (n, "soon" if v is None else email.utils.formatdate(v, usegmt=True)))
+        else:
+            parts.append("%s=%s" % (n, v))
+    return "; ".join(parts)
+
+
+def ck_enc_attr(a):
+    k, v = a
+    if k == "d":
+        return [Atom("d"), v]
+    if k == "p":
+        return [Atom("p"), CK_PATH_ATTRS[v][0]]
+    if k == "s":
+        return Atom("s")
+    if k == "m":
+        return [Atom("m"), v]
+    if k == "e":
+        return [Atom("e"), opt(v)]
+    return Atom("o")
+
+
+def cookie_model_line(case):
+    posts = []
+    for p in case["posts"]:
+        rep = None
+        if p["reply"] is not None:
+            rep = [p["reply"]["t"], [[sc["name"], sc["value"], [ck_enc_attr(a) for a in sc["attrs"]]] for sc in p["reply"]["set"]]]
+        posts.append([p["who"], [p["https"], p["host"], CK_PATHS[p["path"]][0]], p["t"], rep])
+    return line("cookie.run", case["clients"], posts)
+
+
+def ck_dec_cookie(c):
+    return [dstr(c[0]), dstr(c[1]), dstr(c[2]), c[3] == "T", dstr(c[4]), c[5] == "T", c[6] == "T",
+            None if c[7] == "none" else int(c[7][1])]
+
+
+class CookieRunner:
+    def __init__(self, net=None):
+        if net is None:
+            F.scratch("C14")
+            F.patch_client()
+        self.net = net or F.FakeNet(None)
+        self.net.script = self._answer
+        self.clock = F.FakeClock(CK_T0)
+        self.posts = None
+        self.base = 0
+
+    def _answer(self, seen):
+        p = self.posts[seen.n - self.base]
+        if p["reply"] is None:
+            return F.Answer(transport_error=True)
+        self.clock.now = p["reply"]["t"]
+        return F.Answer(b"OK", [ck_header_text(sc) for sc in p["reply"]["set"]], p["reply"]["status"])
+
+    def run(self, case):
+        """-> (per post: [who, header items in wire order], per client: jar contents)"""
+        from ofxtools.Client import OFXClient
+        self.posts, self.base = case["posts"], len(self.net.log)
+        cls = [OFXClient("https://unused.invalid/", persist_cookies=p) for p in case["clients"]]
+        sent = []
+        with self.clock:
+            for p in case["posts"]:
+                self.clock.now = p["t"]
+                url = "%s://%s%s" % ("https" if p["https"] else "http", p["host"], CK_PATHS[p["path"]][0])
+                n0 = len(self.net.log)
+                try:
+                    cls[p["who"]].post_request(url, b"<OFX/>", None)
+                except Exception:  # noqa: transport failure or HTTP 500, both scripted
+                    pass
+                seen = self.net.log[n0:]
+                sent.append([list(x) for x in seen[0].cookie_items] if len(seen) == 1 else ["?", len(seen)])
+        jars = [[[c.name, c.value, c.domain, bool(c.domain_specified), c.path, bool(c.path_specified), bool(c.secure), c.expires]
+                 for c in cl.cookiejar] for cl in cls]
+        return sent, jars
+
+
+# ---- the clauses, stated on what was set and what was sent ------------------------------------
+def ck_erhn(host):
+    h = host.lower()
+    return h if "." in h else h + ".local"
+
+
+def ck_facts(post, sc):
+    """what a Set-Cookie header asks for: (domain without its dot, domain given?, path, secure, expiry or None)"""
+    dom = next((v.lower() for k, v in sc["attrs"] if k == "d"), None)
+    pa = next((CK_PATH_ATTRS[v][1] for k, v in sc["attrs"] if k == "p"), None)
+    if pa is None:
+        rp = CK_PATHS[post["path"]][1]
+        pa = rp[:rp.rfind("/")] or "/"
+    ma = [v for k, v in sc["attrs"] if k == "m"]
+    ex = next((v for k, v in sc["attrs"] if k == "e" and v is not None), None)
+    expiry = post["reply"]["t"] + ma[-1] if ma else ex
+    d = ck_erhn(post["host"]) if dom is None else (dom[1:] if dom.startswith(".") else dom)
+    return {"domain": d, "given": dom is not None, "path": pa, "secure": any(k == "s" for k, _ in sc["attrs"]), "expiry": expiry}
+
+
+def ck_host_ok(host, d):
+    e = ck_erhn(host)
+    return d != "" and (e == d or e.endswith("." + d))
+
+
+def ck_path_ok(rp, cp):
+    return rp == cp or (rp.startswith(cp) and (cp.endswith("/") or rp[len(cp):len(cp) + 1] == "/"))
+
+
+def ck_certainly_accepted(post, f):
+    """no Domain attribute, or one that names the host itself or a parent with an embedded dot"""
+    return not f["given"] or ("." in f["domain"] and ck_host_ok(post["host"], f["domain"]))
+
+
+def cookie_oracle(ctx, case, sent):
+    posts = case["posts"]
+    live = [dict() for _ in case["clients"]]          # per client: key -> (value, facts) | None (= cannot tell)
+    origin = {}                                        # value -> (who, facts)
+    for i, (p, items) in enumerate(zip(posts, sent)):
+        who = p["who"]
+        if items[:1] == ["?"]:
+            ctx.violate("c14c_not_one_request", case, f"post {i} put {items[1]} requests on the wire", {"post": i})
+            continue
+        rp = CK_PATHS[p["path"]][1]
+        if not case["clients"][who] and items:
+            ctx.violate("c14c_cookie_without_persist", case, f"post {i}: a client without persist_cookies sent {items}", {"post": i})
+        lens = []
+        for n, v in items:
+            o = origin.get(v)
+            if o is None or o[0] != who or o[2] != n:
+                ctx.violate("c14c_cookie_foreign", case, f"post {i}: client {who} sent {n}={v}, which no earlier response to this "
+                            "client had set", {"post": i, "cookie": [n, v]})
+                continue
+            f = o[1]
+            lens.append(len(f["path"]))
+            if f["secure"] and not p["https"]:
+                ctx.violate("c14c_secure_over_http", case, f"post {i}: Secure cookie {n}={v} sent over http", {"post": i})
+            if f["expiry"] is not None and f["expiry"] <= p["t"]:
+                ctx.violate("c14c_expired_sent", case, f"post {i}: cookie {n}={v} sent at {p['t']}, it expired at {f['expiry']}", {"post": i})
+            if not ck_host_ok(p["host"], f["domain"]):
+                ctx.violate("c14c_sent_to_foreign_host", case, f"post {i}: cookie {n}={v} of domain {f['domain']} sent to {p['host']}", {"post": i})
+            if not ck_path_ok(rp, f["path"]):
+                ctx.violate("c14c_sent_to_foreign_path", case, f"post {i}: cookie {n}={v} of path {f['path']} sent to {rp}", {"post": i})
+        if lens != sorted(lens, reverse=True):
+            ctx.violate("c14c_order", case, f"post {i}: cookies not in order of path specificity: {items}", {"post": i})
+        # replay: what is live, acceptable beyond doubt and matching must be there
+        if case["clients"][who]:
+            for key, ent in list(live[who].items()):
+                if ent is None:
+                    continue
+                v, f = ent
+                if f["expiry"] is not None and f["expiry"] <= p["t"]:
+                    del live[who][key]                  # clear_expired_cookies
+                    continue
+                if ck_host_ok(p["host"], f["domain"]) and ck_path_ok(rp, f["path"]) and (p["https"] or not f["secure"]):
+                    if [key[2], v] not in items:
+                        ctx.violate("c14c_cookie_not_replayed", case, f"post {i}: live cookie {key[2]}={v} (domain {f['domain']}, path "
+                                    f"{f['path']}) not sent to {p['host']}{rp}", {"post": i})
+        # the response
+        if p["reply"] is None:
+            continue
+        made = []
+        for sc in p["reply"]["set"]:
+            f = ck_facts(p, sc)
+            origin[sc["value"]] = (who, f, sc["name"])
+            dom_key = ("." + f["domain"]) if f["given"] else f["domain"]
+            made.append(((dom_key, f["path"], sc["name"]), sc["value"], f))
+        if case["clients"][who]:
+            for key, v, f in made:
+                if f["expiry"] is not None and f["expiry"] <= p["reply"]["t"]:
+                    live[who].pop(key, None)
+            for key, v, f in made:
+                if f["expiry"] is not None and f["expiry"] <= p["reply"]["t"]:
+                    continue
+                live[who][key] = (v, f) if ck_certainly_accepted(p, f) else None
+
+
+def run_cookie_case(ctx, runner, case, reply):
+    sent, jars = runner.run(case)
+    if reply.ok:
+        mod = [[[[dstr(nv[0]), dstr(nv[1])] for nv in h] for h in reply.vals[0]],
+               [[ck_dec_cookie(c) for c in j] for j in reply.vals[1]]]
+    else:
+        mod = reply.raw
+    ctx.compare("cookie.run", case, [sent, jars], mod, nontrivial=any(s for s in sent))
+    cookie_oracle(ctx, case, sent)
+    for s in sent:
+        ctx.stat("cookie header: %s" % ("none" if not s else "one" if len(s) == 1 else "several"))
+    for j in jars:
+        for c in j:
+            ctx.stat("stored: domain %s, path %s%s%s" % ("given" if c[3] else "default", "given" if c[5] else "default",
+                                                          ", secure" if c[6] else "", ", expiring" if c[7] is not None else ""))
+
+
+def run_cookies(ctx, net):
+    rng = ctx.rng
+    if ctx.model.ask1(line("cookie.path", "/")).kind == "bad":
+        # only in a tree where Ofx.Drv.CookieJar.handle is not (yet) registered in lean/OfxModel/Drv/All.lean
+        import sys
+        msg = "cookie clauses NOT exercised: the driver has no cookie.* ops (Ofx.Drv.CookieJar.handle not registered in Drv/All.lean)"
+        print("C14: " + msg, file=sys.stderr)
+        ctx.notes.append(msg)
+        return
+    runner = CookieRunner(net)
+    cases = [gen_cookie_history(rng) for _ in range(ctx.budget(1500, 30000))]
+    replies = ctx.model.ask([cookie_model_line(c) for c in cases])
+    for case, reply in zip(cases, replies):
+        run_cookie_case(ctx, runner, case, reply)
+    # escape_path on its own
+    import http.cookiejar
+    paths = [p for p, _ in CK_PATHS] + [p for p, _ in CK_PATH_ATTRS] + ["/%zz%4a%4A%", "/a%2fb%2Fc", "/\u20ac/\U0001f600", "/x?y#z[]{}|\\^`<>\""]
+    for p, r in zip(paths, ctx.model.ask([line("cookie.path", p) for p in paths])):
+        ctx.compare("cookie.path", {"path": p}, http.cookiejar.escape_path(p), dstr(r.vals[0]) if r.ok else r.raw)
+    ctx.sample({"case": cases[0]})
